@@ -81,6 +81,20 @@ def bounded_rebatch(p):
                 ok, why = False, f'empty stream emitted {out}'
             if not S.check(ok, w, f'{w}: {why}', cls=kind):
               return S.result()
+  # ragged input tuples (columns of unequal length): rejected, never silently mis-paired - also when the
+  # lengths of two ragged tuples cancel out inside one flush window
+  for a, b in itertools.product(range(0, 4), repeat=2):
+    for c, d in itertools.product(range(0, 4), repeat=2):
+      if (a, c) == (b, d) or (a == b and c == d):
+        continue
+      for target in (1, 3, 8):
+        batches = [([0] * a, [0] * b), ([1] * c, [1] * d)]
+        got = expect(lambda: list(iter_utils.rebatched_args(iter(batches), batch_size=target, num_columns=2)))
+        ok = got[0] == 'raise'
+        if got[0] == 'ok':      # tolerated only if every emitted row pairs values of the same input tuple
+          ok = all(x == y for bt in got[1] for x, y in zip(bt[0], bt[1])) and all(len(bt[0]) == len(bt[1]) for bt in got[1]) and a == b
+        if not S.check(ok, dict(ragged=[[a, b], [c, d]], target=target), f'ragged input tuples with column lengths {(a, b)}, {(c, d)}, target {target}: {got}', cls='ragged'):
+          return S.result()
   # batch_size = 0 is the identity
   bs = [([1, 2], [3, 4]), ([5], [6])]
   S.check(list(iter_utils.rebatched_args(iter(bs), batch_size=0)) == bs, dict(what='batch_size 0'), 'batch_size=0 must be the identity')
